@@ -31,11 +31,23 @@ EXCLUDE = re.compile(r"^ragc::inspect::|^ragc::debug_cost_command")
 def load_table():
     with open(os.path.join(VERIF, "engine", "tables", "c18_sites.json")) as fh:
         d = json.load(fh)
-    return {(e["function"], e["site"]): e["reason"] for e in d["sites"]}
+    tab = {(e["function"], e["site"]): e["reason"] for e in d["sites"]}
+    # how many sites of the function each entry was confirmed for, and (optionally) the guard it was confirmed under
+    META.clear()
+    for e in d["sites"]:
+        META[(e["function"], e["site"])] = (e.get("count", 1), e.get("under"))
+    return tab
+
+
+META = {}
+
+
+USED = {}
 
 
 def audit_scope(F, keys, rep, table, armed=True):
     used = set()
+    USED.clear()
     n = auto = tabled = 0
     for k in sorted(keys):
         f = F.funcs[k]
@@ -60,6 +72,18 @@ def audit_scope(F, keys, rep, table, armed=True):
                            key="C18-O | %s | %s" % (k, desc))
                 continue
             if (k, nkey) in table:
+                cnt, under = META.get((k, nkey), (1, None))
+                USED[(k, nkey)] = USED.get((k, nkey), 0) + 1
+                conds_ok = True
+                if under:
+                    from mirutil import dominating_conds, cond_bool
+                    conds_ok = any(cond_bool(c[1], c[2]) is True and re.search(under, fmt(c[0])) for c in dominating_conds(f, bi, aud.ex))
+                if USED[(k, nkey)] > cnt or not conds_ok:
+                    if armed:
+                        rep.ob("C18-O", "%s in %s cannot overflow" % (desc[:160], k.split("::", 1)[-1]), False,
+                               detail="%s; the table entry for this expression was confirmed for %d site(s)%s of this function and does not cover this one" % (
+                                   why, cnt, " under a guard matching /%s/" % under if under else ""), site=site_of(f, t), key="C18-O | %s | %s" % (k, desc))
+                    continue
                 tabled += 1
                 used.add((k, nkey))
                 if armed:
